@@ -33,7 +33,19 @@ Close(a, b, tol) == AbsV(a - b) <= tol
 \* tolerance of a run: absolute (fixed-point units) plus relative part rel / 100000 of the magnitude
 Tol(r, v) == r.tol + (AbsV(v) * r.rel) \div 100000
 
+\* A "primitive" group records the planar geometry primitives (point-segment and segment-segment distance, relative
+\* position) of one abstract configuration evaluated in several coordinate frames; values are mapped back to the
+\* abstract frame, one path entry per value.
+PrimClause(r) ==
+  IF Base.exc # "" THEN "operation-raised:" \o Base.name
+  ELSE IF r.exc # "" THEN "operation-raised:" \o r.name
+  ELSE IF Len(r.path) # Len(Base.path) THEN "primitive-value-differs:" \o r.name
+  ELSE IF \E j \in 1..Len(r.path) : ~Close(r.path[j].lp, Base.path[j].lp, Tol(r, Base.path[j].lp))
+       THEN "primitive-value-differs:" \o r.name
+  ELSE ""
+
 RunClause(r) ==
+  IF G.kind = "primitive" THEN PrimClause(r) ELSE
   IF Base.exc # "" THEN "operation-raised:" \o Base.name
   ELSE IF r.exc # "" THEN "operation-raised:" \o r.name
   ELSE IF r.idx # Base.idx THEN "matched-index-differs:" \o r.name
